@@ -144,7 +144,9 @@ Program genC08(Rand& R, int tier)
         int mask = 1 + int(R.below(7));
         for (int a = 0; a < 3; a++) if (mask & (1 << a)) {
             int dst = nextRes++; if (nextRes > 15) nextRes = 10;
-            G.emit({"reach", ALGS[a], fwd ? "1" : "0", "9", "8", Gen::num(dst), Gen::num(fres)});
+            Step st{"reach", ALGS[a], fwd ? "1" : "0", "9", "8", Gen::num(dst), Gen::num(fres)};
+            if (fres == fset && R.chance(12)) st.push_back("inplace");
+            G.emit(st);
             G.setLive(dst, fres);
         }
         if (R.chance(25)) G.emit({"clearct", Gen::num(R.chance(50) ? fset : frel)});
@@ -181,7 +183,9 @@ Program genC09(Rand& R, int tier)
             int cur = 9;
             for (int i = 0; i < steps; i++) {
                 int dst = 10 + i;
-                G.emit({"image", R.chance(55) ? "POST" : "PRE", Gen::num(cur), "8", Gen::num(dst), Gen::num(fres)});
+                Step st{"image", R.chance(55) ? "POST" : "PRE", Gen::num(cur), "8", Gen::num(dst), Gen::num(fres)};
+                if (fres == fset && R.chance(12)) st.push_back("inplace");
+                G.emit(st);
                 G.setLive(dst, fres);
                 if (fres == fset && R.chance(50)) cur = dst;     // iterate on the image
             }
@@ -196,7 +200,9 @@ Program genC09(Rand& R, int tier)
         for (int r = 0; r < rounds; r++) {
             G.genFunction(0, fvec, 8);
             G.genFunction(1, fmat, 10);
-            G.emit({"vm", R.chance(50) ? "VM" : "MV", "0", "1", Gen::num(2 + r), Gen::num(fres)});
+            Step st{"vm", R.chance(50) ? "VM" : "MV", "0", "1", Gen::num(2 + r), Gen::num(fres)};
+            if (fres == fvec && R.chance(12)) st.push_back("inplace");
+            G.emit(st);
             G.setLive(2 + r, fres);
             if (fres == fvec && R.chance(40)) { G.emit({"vm", R.chance(50) ? "VM" : "MV", Gen::num(2 + r), "1", "8", Gen::num(fres)}); G.setLive(8, fres); }
         }
@@ -227,7 +233,10 @@ Program genC20(Rand& R, int tier)
             // forward only: it is what the property quantifies over (SATURATION_BACKWARD crashes on
             // the first call on the unchanged tree -- sparse accessors on a full unpacked node in
             // bckwd_dfs_by_events_mt::saturateHelper -- recorded in DESIGN.md, outside C20)
-            G.emit({"pregen", byLevels ? "bylevels" : "byevents", SPLITS[R.below(5)], "1", "9", Gen::num(10 + v), Gen::num(fset)});
+            Step st{"pregen", byLevels ? "bylevels" : "byevents", SPLITS[R.below(5)], "1", "9", Gen::num(10 + v), Gen::num(fset)};
+            if (R.chance(12)) st.push_back("inplace");
+            if (R.chance(30)) st.push_back("again");
+            G.emit(st);
             G.setLive(10 + v, fset);
         }
         G.emit({"reach", R.chance(50) ? "TRAD_NOFS" : "SATUR", "1", "9", "8", "14", Gen::num(fset)});
